@@ -163,7 +163,7 @@ inline void start_worker(double timeout_s) {
 }
 
 inline ExecResult run_one(const Scenario& sc, const std::vector<unsigned char>& prefix, int spurious_at,
-                          double timeout_s = 30) {
+                          double timeout_s = 120) {
     ensure_shared();
     vs_shared* sh = SH();
     sh->status = VS_RUNNING;
@@ -326,6 +326,13 @@ struct Explorer {
                 break;
             }
             ExecResult r = run_one(sc, nd.prefix, spurious_at);
+            if (r.timed_out) {
+                // a deterministic schedule that hit the watchdog is re-run alone with a much longer limit before it
+                // is called a hang (the machine may just be overloaded)
+                stop_worker();
+                r = run_one(sc, nd.prefix, spurious_at, 1200);
+                vh::stat_add("watchdog_reruns");
+            }
             execs++;
             if (r.npoints < (int)nd.prefix.size() && (r.status == VS_OK || r.status == VS_QUIESCENT_OK)) {
                 vh::out_line("ERROR " + sc.name + ": execution ended before the prefix was consumed (nondeterminism) prefix=" +
